@@ -2,6 +2,9 @@
    scheduler effect of update_timeout, as the code is in /repo (src/tracker/tracker_controller.cc,
    src/tracker/tracker_list.cc, src/torrent/tracker/tracker_state.{h,cc}, src/torrent/tracker/tracker.cc).
    Definitions only. Tracker workers are the environment (ops Success / Failure / no reply).
+   Follows /repo including the fix: commits d5b8825 (send_update_event carries the pending event),
+   eed7d46 (only a success that carried the pending event clears it), b6c5394 and fabe449
+   (min interval honoured by success_time_next and tracker_next_timeout_promiscuous).
 
    Time: [now] and the timer are absolute microseconds (cached_time); TrackerState times are
    absolute seconds (cached_seconds = now / 10^6). Counters are unbounded (uint32 in the code; a
@@ -539,3 +542,26 @@ Definition init (t0 : Z) (groups : list nat) : state :=
   mkS (insert_all O groups []) no_flags None t0 0 0 0 [].
 
 Definition run (s : state) (ops : list op) : state := fold_left step ops s.
+
+(* ---------------------------------------------------------------- vocabulary of the theorems (Props, not extracted) *)
+
+(* the client API never issues send_stop_event without the disable that follows it (Download::stop = OStop) *)
+Definition client_level (o : op) : Prop := o <> OSendStop.
+
+(* ops that end the obligation to carry 'started': the client replaces the event, or a tracker
+   accepts a request that carried STARTED while the controller is active *)
+Definition clears (ev : event) (s : state) (o : op) : Prop :=
+  match o with
+  | OSendStop | OStop false => True
+  | OSendStart | OStart false => ev <> EvStarted
+  | OSendCompleted => ev <> EvCompleted
+  | OSuccess id _ _ => f_active (fl s) = true /\ exists t, find_id (trs s) id = Some t /\ t_busy t = true /\ t_ev t = ev
+  | _ => False
+  end.
+
+Fixpoint pending_run (ev : event) (s : state) (ops : list op) : Prop :=
+  match ops with
+  | [] => True
+  | o :: rest => ~ clears ev s o /\ pending_run ev (step s o) rest
+  end.
+
